@@ -77,7 +77,11 @@ def paper_value(c, zm, z0, ws, ustar, mol, sv, res, x, y, sign):
     return res * res * Dy * fy, U
 
 
-def fp_case(km, sign, int_zm, wd, mirror=False):
+def fp_case(km, sign, int_zm, wd, mirror=False, prior=False):
+    """prior: the footprint is preceded, in the same process, by a footprint for ANOTHER receptor on the same
+    output grid and wind direction (what a multi-tower or moving-platform series does): the second result must
+    still be the closed form about its own receptor"""
+
     def fn(c):
         z0, ws, ustar, mol, sv, res = (c.real(k) for k in ("z0", "ws", "ustar", "mol", "sv", "res"))
         if int_zm:
@@ -89,6 +93,9 @@ def fp_case(km, sign, int_zm, wd, mirror=False):
         # one cell, symbolic centre (cx, cy); receptor at (mx, my)
         cx, cy, mx, my = (c.real(k) for k in ("cx", "cy", "mx", "my"))
         dom = [cx - res * ex.R(F(1, 2)), cx + res * ex.R(F(1, 2)), cy - res * ex.R(F(1, 2)), cy + res * ex.R(F(1, 2))]
+        if prior:
+            mx0, my0 = c.real("mx_prior"), c.real("my_prior")
+            km.estimateFootprint(zm, z0, ws, ustar, mol, sv, dom, res, [mx0, my0], wd=wd)
         gx, gy, ffm = km.estimateFootprint(zm, z0, ws, ustar, mol, sv, dom, res, [mx, my], wd=wd)
         return dict(ffm=ffm, gx=gx, gy=gy, zm=zm, z0=z0, ws=ws, ustar=ustar, mol=mol, sv=sv, res=res, cx=cx, cy=cy, mx=mx, my=my)
 
@@ -131,8 +138,10 @@ def decide(run, c, name, bad, scn, account, found, timeout_ms=120000):
 
 def footprint_part(run, km, cases, account=True):
     found = []
-    for sign, int_zm, wd in cases:
-        fn = fp_case(km, sign, int_zm, wd)
+    for case in cases:
+        sign, int_zm, wd = case[:3]
+        prior = len(case) > 3 and case[3] == "prior"
+        fn = fp_case(km, sign, int_zm, wd, prior=prior)
         npaths = 0
         for info, c in ex.explore(fn, cap=24):
             try:
@@ -154,6 +163,8 @@ def footprint_part(run, km, cases, account=True):
             want, U = paper_value(c, info["zm"], info["z0"], info["ws"], info["ustar"], info["mol"], info["sv"], info["res"], x, y, sign)
             npaths += 1
             scn = dict(stability="stable" if sign > 0 else "unstable", zm_type="int" if int_zm else "float", wd=wd, path=npaths)
+            if prior:
+                scn["history"] = "preceded by a footprint for another receptor on the same grid"
             if int_zm:
                 # dtype flow: with an integer-typed height no physical quantity may pass through integer storage
                 tr = getattr(c, "truncations", 0)
@@ -424,6 +435,8 @@ def cases(tier):
                 if sign < 0 and wd in (0, 180):
                     continue  # z3 answers unknown (900 s) on unstable x {0, 180}: the rotation code is shared with the stable case, the value formula with wd None / 90 / 270
                 out.append((sign, int_zm, wd))
+    # call histories: state kept between calls (module-level memo, mutated default, cached geometry)
+    out += [(1, False, None, "prior"), (1, False, 270, "prior")]
     return out
 
 
